@@ -180,30 +180,54 @@ fn rop(v: &Value) -> ROp {
         ttl_ms: v["ttl_ms"].as_i64().unwrap_or(3_600_000),
     }
 }
-/// 0 ok, 1 unknown id, 2 duplicate id, 7 anything else
-fn model_apply(m: &Model, o: &ROp, now: i64) -> (u8, Model) {
+/// code: 0 ok, 1 unknown id, 2 duplicate id, 3 nothing found, 7 anything else; `aux`: the remaining ttl
+/// (ms) `load` reported or the count `delete_expired` returned; `state`: what `load` returned
+#[derive(Clone, Debug, PartialEq)]
+struct Out {
+    code: u8,
+    aux: i64,
+    state: Option<Map>,
+}
+fn out(code: u8) -> Out {
+    Out { code, aux: 0, state: None }
+}
+fn model_apply(m: &Model, o: &ROp, now: i64) -> (Out, Model) {
     let mut m2 = m.clone();
     let live_i = live(m, &o.id, now).is_some();
     let fresh = Some((o.state.clone(), now + o.ttl_ms));
     match o.name.as_str() {
         "create" => {
-            if live_i { (2, m2) } else { m2.insert(o.id.clone(), fresh); (0, m2) }
+            if live_i { (out(2), m2) } else { m2.insert(o.id.clone(), fresh); (out(0), m2) }
         }
         "update" => {
-            if live_i { m2.insert(o.id.clone(), fresh); (0, m2) } else { (1, m2) }
+            if live_i { m2.insert(o.id.clone(), fresh); (out(0), m2) } else { (out(1), m2) }
         }
         "update_ttl" => {
-            if live_i { let cur = m[&o.id].clone().unwrap().0; m2.insert(o.id.clone(), Some((cur, now + o.ttl_ms))); (0, m2) } else { (1, m2) }
+            if live_i { let cur = m[&o.id].clone().unwrap().0; m2.insert(o.id.clone(), Some((cur, now + o.ttl_ms))); (out(0), m2) } else { (out(1), m2) }
         }
         "delete" => {
-            if live_i { m2.insert(o.id.clone(), None); (0, m2) } else { (1, m2) }
+            if live_i { m2.insert(o.id.clone(), None); (out(0), m2) } else { (out(1), m2) }
+        }
+        "load" => match live(m, &o.id, now) {
+            Some(st) => (Out { code: 0, aux: m[&o.id].as_ref().unwrap().1 - now, state: Some(st) }, m2),
+            None => (out(3), m2),
+        },
+        "delete_expired" => {
+            let mut n = 0;
+            for l in ["A", "B"] {
+                if matches!(&m[l], Some((_, d)) if *d <= now) {
+                    n += 1;
+                    m2.insert(l.to_string(), None);
+                }
+            }
+            (Out { code: 0, aux: n, state: None }, m2)
         }
         _ => {
-            if live(m, &o.to, now).is_some() { (2, m2) } else if !live_i { (1, m2) } else {
+            if live(m, &o.to, now).is_some() { (out(2), m2) } else if !live_i { (out(1), m2) } else {
                 let moved = m[&o.id].clone();
                 m2.insert(o.id.clone(), None);
                 m2.insert(o.to.clone(), moved);
-                (0, m2)
+                (out(0), m2)
             }
         }
     }
@@ -216,14 +240,23 @@ fn padded(m: &Map) -> HashMap<Cow<'static, str>, Value> {
     }
     s
 }
-async fn exec_real(s: &InMemorySessionStore, o: &ROp, state: &HashMap<Cow<'static, str>, Value>) -> u8 {
+async fn exec_real(s: &InMemorySessionStore, o: &ROp, state: &HashMap<Cow<'static, str>, Value>) -> Out {
     let ttl = Duration::from_millis(o.ttl_ms as u64);
     match o.name.as_str() {
-        "create" => match s.create(&id_of(&o.id), SessionRecordRef { state: Cow::Borrowed(state), ttl }).await { Ok(()) => 0, Err(CreateError::DuplicateId(_)) => 2, Err(_) => 7 },
-        "update" => match s.update(&id_of(&o.id), SessionRecordRef { state: Cow::Borrowed(state), ttl }).await { Ok(()) => 0, Err(UpdateError::UnknownIdError(_)) => 1, Err(_) => 7 },
-        "update_ttl" => match s.update_ttl(&id_of(&o.id), ttl).await { Ok(()) => 0, Err(UpdateTtlError::UnknownId(_)) => 1, Err(_) => 7 },
-        "delete" => match s.delete(&id_of(&o.id)).await { Ok(()) => 0, Err(DeleteError::UnknownId(_)) => 1, Err(_) => 7 },
-        _ => match s.change_id(&id_of(&o.id), &id_of(&o.to)).await { Ok(()) => 0, Err(ChangeIdError::UnknownId(_)) => 1, Err(ChangeIdError::DuplicateId(_)) => 2, Err(_) => 7 },
+        "create" => match s.create(&id_of(&o.id), SessionRecordRef { state: Cow::Borrowed(state), ttl }).await { Ok(()) => out(0), Err(CreateError::DuplicateId(_)) => out(2), Err(_) => out(7) },
+        "update" => match s.update(&id_of(&o.id), SessionRecordRef { state: Cow::Borrowed(state), ttl }).await { Ok(()) => out(0), Err(UpdateError::UnknownIdError(_)) => out(1), Err(_) => out(7) },
+        "update_ttl" => match s.update_ttl(&id_of(&o.id), ttl).await { Ok(()) => out(0), Err(UpdateTtlError::UnknownId(_)) => out(1), Err(_) => out(7) },
+        "delete" => match s.delete(&id_of(&o.id)).await { Ok(()) => out(0), Err(DeleteError::UnknownId(_)) => out(1), Err(_) => out(7) },
+        "load" => match s.load(&id_of(&o.id)).await {
+            Ok(Some(r)) => Out { code: 0, aux: r.ttl.as_millis() as i64, state: core_view(Some(r.state.iter().map(|(k, v)| (k.to_string(), v.clone())).collect())) },
+            Ok(None) => out(3),
+            Err(_) => out(7),
+        },
+        "delete_expired" => match s.delete_expired(None).await {
+            Ok(n) => Out { code: 0, aux: n as i64, state: None },
+            Err(_) => out(7),
+        },
+        _ => match s.change_id(&id_of(&o.id), &id_of(&o.to)).await { Ok(()) => out(0), Err(ChangeIdError::UnknownId(_)) => out(1), Err(ChangeIdError::DuplicateId(_)) => out(2), Err(_) => out(7) },
     }
 }
 fn core_view(m: Option<Map>) -> Option<Map> {
@@ -277,7 +310,7 @@ fn run_race(script: &Value) -> Result<(), Fail> {
         }
         check!(
             explained[0] || explained[1],
-            "round {round}: `{}` and `{}` issued concurrently returned codes ({r_ours}, {r_other}) and left {seen:?}: no sequential order of the two operations explains that (other first: ({ro1}, {ra1}); ours first: ({ro2}, {ra2}))",
+            "round {round}: `{}` and `{}` issued concurrently returned ({r_ours:?}, {r_other:?}) and left {seen:?}: no sequential order of the two operations explains that (other first: ({ro1:?}, {ra1:?}); ours first: ({ro2:?}, {ra2:?}))",
             ours.name, other.name
         );
     }
